@@ -15,7 +15,7 @@ SCRATCH = "/var/tmp/iodine-seeded"
 
 
 def sh(cmd, **kw):
-    return subprocess.run(cmd, shell=isinstance(cmd, str), stdout=subprocess.PIPE, stderr=subprocess.STDOUT, text=True, **kw)
+    return subprocess.run(cmd, shell=isinstance(cmd, str), stdout=subprocess.PIPE, stderr=subprocess.STDOUT, text=True, errors="replace", **kw)
 
 
 def meta_path(i):
@@ -39,7 +39,7 @@ def worktree(i):
     if os.path.exists(d):
         sh(["git", "-C", "/repo", "worktree", "remove", "--force", d])
         shutil.rmtree(d, ignore_errors=True)
-    r = sh(["git", "-C", "/repo", "worktree", "add", "--detach", d, "HEAD"])
+    r = sh(["git", "-C", "/repo", "worktree", "add", "--detach", d, os.environ.get("SEEDED_BASE", "HEAD")])
     if r.returncode:
         raise SystemExit(r.stdout)
     return d
@@ -101,7 +101,7 @@ def cmd_confirm(i):
     finally:
         drop(i)
     m["confirmation"] = out
-    m["confirmed_at_repo_head"] = sh(["git", "-C", "/repo", "log", "--format=%h", "-1"]).stdout.strip()
+    m["confirmed_at_repo_head"] = sh(["git", "-C", "/repo", "log", "--format=%h", "-1", os.environ.get("SEEDED_BASE", "HEAD")]).stdout.strip()
     save_meta(i, m)
     print(i, "CONFIRMED" if out.get("confirmed") else "NOT CONFIRMED", json.dumps(out)[:300])
 
